@@ -591,6 +591,9 @@ func RunHistory(rng *common.Rng, cfg Config) (*Run, error) {
 				continue
 			}
 			o = Op{Kind: "cmd", S: s, Cmd: "store", Ps: pickPs(n), FOp: []string{"add", "rem", "set"}[rng.Pick(3)], Flags: pickFlags(true), Silent: rng.Chance(0.3)}
+			if rng.Chance(0.15) {
+				o.Flags = setOf(append(o.Flags, 6+rng.Pick(2))) // one of the forward flags: the server completes the pair
+			}
 		case x < 33:
 			o = Op{Kind: "cmd", S: s, Cmd: "expunge"}
 		case x < 38:
